@@ -1881,7 +1881,9 @@ def stage_stream(ck: Check, pid: str, log):
     for i, r in enumerate(rs):
         c = r['case']
         ck.count(('stage', i, c['rseed']))
-        ck.bump('stage_cases', f"{c['stage']}/{c.get('heur') or 'stock'}/{c['shape']}")
+        ck.bump('stage_cases', f"{c['stage']}/{c.get('heur') or ('params' if c.get('params') else 'stock')}/{c['shape']}")
+        if r.get('backtracks') and not c.get('heur'):
+            ck.bump('stage_backtracking_cases_stock_scores', None, 1)
         ck.bump('stage_two_qudit_gates', None, r['npairs'])
         if r.get('backtracks'):
             nbt += 1
@@ -1889,7 +1891,7 @@ def stage_stream(ck: Check, pid: str, log):
         replay = {'stage_case': c, 'pairs': r['pairs'],
                   'how': 'harness.pipe_stage.run_stage_case({**stage_case, "pairs": pairs})',
                   'pi': r.get('pi'), 'pf': r.get('pf')}
-        tag = f"{c['stage']}:{c.get('heur') or 'stock'}"
+        tag = f"{c['stage']}:{c.get('heur') or ('params' if c.get('params') else 'stock')}"
         if r['exc'] == 'timeout':
             ck.bump('stage_timeouts', tag)
             continue
@@ -1907,6 +1909,8 @@ def stage_stream(ck: Check, pid: str, log):
                     f'c01-stage-semantics:{tag}',
                     f"mapping fragment of compile() ({c['stage']}"
                     + (f", swap heuristic replaced by '{c['heur']}'" if c.get('heur') else '')
+                    + (f", GeneralizedSabreRoutingPass({c['params']})" if c.get('params')
+                       else '')
                     + f") on a {c['n']}-qubit circuit with {r['npairs']} two-qudit gates, "
                     f"{c['shape']} of {c['m']} qudits, {r.get('backtracks', 0)} backtracking "
                     f"episodes: {b}", replay, found_input=True)
